@@ -482,6 +482,29 @@ def check_pauli_expansion(ctx):
     rets = [r for r in ast.walk(tp) if isinstance(r, ast.Return) and r.value is not None and not any(r in ast.walk(x) for x in (f, nz))]
     ok = bool(rets) and isinstance(rets[-1].value, ast.BinOp) and isinstance(rets[-1].value.op, ast.Div) and norm(rets[-1].value.right) in ("2 ** n", "float(2 ** n)", "nrows", "ncols")
     ctx.check(ok, R5, fi.key + ":normalisation", "coefficient = trace / 2**n", f"the trace is normalised as {short(rets[-1].value) if rets else '?'}", f"{fi.module.relpath}:{tp.lineno}")
+    # the coefficients handed on are the traces as computed: nothing projects, rounds or clips them afterwards
+    hand = [c for c in body_walk(fi.node) if isinstance(c, ast.Call) and dotted(c.func) == "get_pauliop_from_coeffs_and_labels" and c.args and isinstance(c.args[0], ast.Name)]
+    if hand:
+        cname = hand[0].args[0].id
+        stores = [s for s in ast.walk(fi.node) if isinstance(s, (ast.Assign, ast.AugAssign)) and any(isinstance(t, ast.Subscript) and isinstance(t.value, ast.Name) and t.value.id == cname for t in (s.targets if isinstance(s, ast.Assign) else [s.target]))]
+        dd = Defs(fi.node)
+
+        def _is_trace(v, depth=0):
+            if isinstance(v, ast.Name) and depth < 3:
+                sd = dd.single_def(v.id)
+                return isinstance(sd, ast.AST) and _is_trace(sd, depth + 1)
+            return isinstance(v, ast.Call) and dotted(v.func) == tp.name
+
+        bad = [s for s in stores if isinstance(s, ast.AugAssign) or not _is_trace(s.value)]
+        whole = [v for v in dd.defs.get(cname, []) if isinstance(v, (ast.ListComp, ast.GeneratorExp)) or (isinstance(v, ast.Call) and v.args and isinstance(v.args[0], (ast.ListComp, ast.GeneratorExp)))]
+        whole_ok = all(_is_trace((w if isinstance(w, (ast.ListComp, ast.GeneratorExp)) else w.args[0]).elt) for w in whole)
+        culprit = bad[0] if bad else (whole[0] if whole else fi.node)
+        if stores or whole:
+            ctx.check(not bad and whole_ok, R5, fi.key + ":coefficients-as-computed", "every coefficient handed on is the normalised trace itself", f"a coefficient is rewritten after the trace was taken (`{short(culprit, 80)}`): the expansion of a general square matrix has complex coefficients, and projecting / rounding them (real part, magnitude, tolerance snap) makes the rebuilt operator differ from the matrix -- e.g. the real part is only right for Hermitian input, and a symmetric matrix need not be Hermitian", f"{fi.module.relpath}:{culprit.lineno}")
+        else:
+            ctx.undecided(R5, fi.key + ":coefficients-as-computed", f"cannot find where `{cname}` receives the traces", fi)
+    else:
+        ctx.undecided(R5, fi.key + ":coefficients-as-computed", "cannot find the hand-over to get_pauliop_from_coeffs_and_labels", fi)
     # labels -> letters on the right qubit
     cl = repo.func(f"{OU}:get_pauliop_from_coeffs_and_labels")
     ctx.analysed(cl)
